@@ -226,3 +226,71 @@ def mutable_tables(model):
                     out[key] = (r[0], q, r[1], r[2])
     model._mutable_tables = out
     return out
+
+
+# ---- decorators ------------------------------------------------------------------------------------------------------
+PLAIN_DECORATORS = frozenset(['property', 'staticmethod', 'classmethod', 'abstractmethod'])
+MEMO_DECORATORS = frozenset(['lru_cache', 'cache', 'cached_property', 'memoize', 'memoized'])
+
+
+def _decorator_name(d):
+    if isinstance(d, ast.Call):
+        d = d.func
+    if isinstance(d, ast.Attribute):
+        return d.attr, (d.value.id if isinstance(d.value, ast.Name) else None)
+    if isinstance(d, ast.Name):
+        return d.id, None
+    return None, None
+
+
+def decorated_functions(model):
+    """[(qualname, decorator name, kind, detail, lineno)] for every decorator in the package; kind is 'plain' (property,
+    setter, staticmethod ...: the interpreter models them), 'memo-pure' / 'memo-impure' (a memoising decorator on a function
+    whose result does / does not depend on anything but its arguments) or 'unknown'.  The abstract interpreter evaluates
+    function bodies and ignores decorators, which is only right for the plain kind and for pure memoised functions."""
+    out = []
+    for cname, fn, mod in functions(model):
+        q = '%s.%s' % (cname, fn.name) if cname else fn.name
+        for d in fn.decorator_list:
+            name, base = _decorator_name(d)
+            if name in PLAIN_DECORATORS or name in ('setter', 'getter', 'deleter'):
+                out.append((q, name, 'plain', '', d.lineno))
+                continue
+            if name in MEMO_DECORATORS:
+                params = set(a.arg for a in fn.args.args)
+                first = fn.args.args[0].arg if fn.args.args else None
+                reads = set()
+                for n in ast.walk(fn):
+                    if isinstance(n, ast.Attribute) and isinstance(n.value, ast.Name) and n.value.id == first and cname:
+                        reads.add('%s.%s' % (first, n.attr))
+                    if isinstance(n, ast.Name) and isinstance(n.ctx, ast.Load) and (mod, n.id) in model.consts \
+                            and _is_mutable_display(model.consts[(mod, n.id)]):
+                        reads.add(n.id)
+                kind = 'memo-impure' if reads else 'memo-pure'
+                detail = ', '.join(sorted(reads)[:6])
+                if reads:
+                    # accepted when every writer of the state it reads also clears the cache (x.<fn>.cache_clear())
+                    stale = []
+                    for r in sorted(reads):
+                        attr = r.split('.')[-1]
+                        writers = set(w[0] for w in attr_stores(model, attr)) | \
+                            set(w[0] for w in method_calls_on_attr(model, attr, WRITE_METHODS))
+                        for w in sorted(writers):
+                            if w.endswith('.__init__'):
+                                continue
+                            wc, _, wn = w.rpartition('.')
+                            wfn = model.lookup(wc, wn)[1] if wc else model.functions.get((mod, wn))
+                            clears = wfn is not None and any(
+                                isinstance(n, ast.Call) and isinstance(n.func, ast.Attribute) and n.func.attr == 'cache_clear'
+                                and isinstance(n.func.value, ast.Attribute) and n.func.value.attr == fn.name
+                                for n in ast.walk(wfn))
+                            if not clears:
+                                stale.append('%s (written by %s)' % (r, w))
+                    if stale:
+                        detail = '; '.join(stale[:4])
+                    else:
+                        kind = 'memo-guarded'
+                out.append((q, name, kind, detail, d.lineno))
+                continue
+            out.append((q, name or ast.dump(d)[:40], 'unknown', '', d.lineno))
+    return out
